@@ -41,6 +41,9 @@ def run(ctx: Ctx):
     _need(ctx, "C03-O7", "R16 PAIRED-EFFECTS", p2, "after the pivot the basis label and the basis set move together", ["matrix = _pivot(matrix, m, leave, enter, eps)\n        basis_set.discard(basis[leave])\n        basis[leave] = enter\n        basis_set.add(enter)"])
     pv = ctx.func("simplex", "_pivot")
     _need(ctx, "C03-O7", "R16 PAIRED-EFFECTS", pv, "pivot: the pivot row is scaled to a unit entry, every other row (objective row included) is cleared in the pivot column", ["inv = 1.0 / pivot_val\n    for j in range(n_cols):\n        matrix[row][j] *= inv", "for i in range(m + 1):\n        if i != row:\n            f = matrix[i][col]\n            if abs(f) > eps:\n                for j in range(n_cols):\n                    matrix[i][j] -= f * matrix[row][j]", "return matrix"])
+    p1 = ctx.func("simplex", "_phase1")
+    _need(ctx, "C03-O7", "R16 PAIRED-EFFECTS", p1, "after phase 1 every basic artificial is pivoted out over all structural and slack columns (every column that is not artificial), with its basis label", ["n_cols = len(matrix[0])\n    for i in range(m):\n        if basis[i] in art_cols:\n            for j in range(n_cols - 1 - len(art_cols)):\n                if j not in basis_set and abs(matrix[i][j]) > eps:\n                    matrix = _pivot(matrix, m, i, j, eps)\n                    basis_set.discard(basis[i])\n                    basis[i] = j\n                    basis_set.add(j)\n                    break"], "a scan that stops short of the last non-artificial column leaves an artificial basic; it is deleted with its column and phase 2 lets it grow")
+    _need(ctx, "C03-O7", "R16 PAIRED-EFFECTS", p1, "the artificial objective is the sum of the artificial rows; afterwards the artificial columns are removed and the original objective is restored and priced out against the basis", ["for col in art_cols:\n        matrix[-1][col] = 1.0", "for i in range(m):\n        if basis[i] in art_cols:\n            for j in range(n_cols):\n                matrix[-1][j] -= matrix[i][j]", "for _ in art_cols:\n        for row in matrix:\n            del row[-2]", "matrix[-1] = orig_obj", "var = basis[i]\n        if var < n_cols - 1:\n            cost = matrix[-1][var]\n            if abs(cost) > eps:\n                for j in range(n_cols):\n                    matrix[-1][j] -= cost * matrix[i][j]"])
     ex = ctx.func("simplex", "_extract")
     _need(ctx, "C03-O7", "R5 PAIRING", ex, "the point is read off the basic rows of the structural variables; the objective is the negated corner cell, mirrored back for maximisation", ["solution = [0.0] * n", "for i in range(m):\n        if basis[i] < n:\n            solution[basis[i]] = matrix[i][-1]", "obj = -matrix[-1][-1]\n    if not minimize:\n        obj = -obj", "return Result(tuple(solution), obj, iters, iters, status)"])
     sl = ctx.func("interior_point", "_step_length")
@@ -491,6 +494,11 @@ def _v_ratio_threshold(tree):
     M.replace_expr(g, lambda e: M.src_is(e, "matrix[i][enter] > eps"), M.expr("matrix[i][enter] > 0"))
 
 
+def _v_pivot_out_scan_short(tree):
+    g = M.find_func(tree, "_phase1")
+    M.replace_expr(g, lambda e: M.src_is(e, "range(n_cols - 1 - len(art_cols))"), M.expr("range(n_cols - 1 - m)"))
+
+
 def _v_ratio_rows_off_by_one(tree):
     g = M.find_func(tree, "_phase2")
     loops = [n for n in ast.walk(g) if isinstance(n, ast.For) and M.src_is(n.iter, "range(m)")]
@@ -552,6 +560,7 @@ VARIANTS = [
     M.Variant("Newton scaling divides by z[j] without the eps clamp", IP, _v_ip_divisor_unclamped, "C03-O6"),
     M.Variant("Mehrotra ratio divides by mu under `mu >= 0`", IP, _v_ip_ratio_unguarded, "C03-O6"),
     M.Variant("ratio test leaves the last constraint row out", SX, _v_ratio_rows_off_by_one, "C03-O7"),
+    M.Variant("phase-1 pivot-out scans n_cols - 1 - m columns instead of all non-artificial ones (seed C03-E)", SX, _v_pivot_out_scan_short, "C03-O7"),
     M.Variant("twin: reformat", SX, _t_reformat, None),
     M.Variant("twin: reformat interior", IP, _t_reformat, None),
     M.Variant("twin: rename status locals", SX, _t_rename, None),
